@@ -52,7 +52,9 @@ def gen_values(rng, threshold: int) -> list[Any]:
 
 def gen_excs() -> list[tuple[str, tuple]]:
     return [("ValueError", ("bad", 3)), ("KeyError", ("k",)), ("RuntimeError", ()), ("ProgError", ("boom", 7)),
-            ("RetryError", ("try later",)), ("ZeroDivisionError", ("division by zero",)), ("TypeError", ("x", "y", 1))]
+            ("RetryError", ("try later",)), ("ZeroDivisionError", ("division by zero",)), ("TypeError", ("x", "y", 1)),
+            # application errors defined INSIDE another class (their qualified name has a dot)
+            ("Nested:QuotaExceeded", ("acme", 7)), ("Nested:TryLater", ("busy",))]
 
 
 def forget_local_copies(app) -> None:  # type: ignore[no-untyped-def]
